@@ -5142,6 +5142,10 @@ class DfaCompileCtx:
                 if ignore_map_counter[(frozenset(next_target.on_values), next_target.target)] > max_count:
                     continue
 
+            # Actions behind one that leaves the transition (yield, finish, break, an append that may jump) would never run
+            if next_target.actions and any(x.may_return_early() or x.get_target_override_mode() != ActionOverrideMode.NONE for x in transition.actions):
+                continue
+
             # Shortcircuit the transition
             if next_target.error_handling:
                 transition.handles_else()
@@ -5177,6 +5181,10 @@ class DfaCompileCtx:
                 max_count = ProgramData.option(ProgramOption.MAX_SHORTCIRCUIT_FALLTHROUGH) - ProgramData.option(ProgramOption.MAX_SHORTCIRCUIT_ACTION_PENALTY)*(len(to_replace.actions)-1)
                 if ignore_map_counter[(frozenset(to_replace.on_values), to_replace.target)] > max_count:
                     continue
+
+            # Actions behind one that leaves the transition (yield, finish, break, an append that may jump) would never run
+            if to_replace.actions and any(x.may_return_early() or x.get_target_override_mode() != ActionOverrideMode.NONE for x in transition.actions):
+                continue
 
             # Shortcircuit the transition
             if to_replace.error_handling:
